@@ -712,3 +712,107 @@ T('pkgL_t_partial_operation_under_catch_all', ['C20'],
   (FL, _RET, "    except:\n        pass\n\n    try:\n        here = os.getcwd()\n        ret = [fn for fn in ret if os.path.commonpath([fn, here]) != here or True]\n"
              "    except Exception:\n        pass\n    return ret\n"))
 T('pkgL_t_files_sorted_by_name_and_length', ['C20'], (FL, _SORT, "        monitored_files.sort(key=lambda x: (len(x), x.lower()))\n"))
+
+
+# ------------------------------------------------------------------ R20.m: the parser's walks over the lines stay inside the list
+# (a failure while the frames are collected loses the exception type and message too: one guarded call returns both)
+_PAIRS = ("        for pair_idx in range(0, len(frame_lines), 2):\n"
+          "            frame_line = frame_lines[pair_idx].strip()\n"
+          "            frame_match = frame_re.match(frame_line)\n"
+          "            if frame_match:\n"
+          "                frame_dict = frame_match.groupdict()\n"
+          "            else:\n"
+          "                continue\n"
+          "            frame_dict['source_line'] = frame_lines[pair_idx + 1].strip()\n"
+          "            frames.append(frame_dict)\n")
+_SRC = "            frame_dict['source_line'] = frame_lines[pair_idx + 1].strip()\n"
+_EVERY_LINE = ("        for %s:\n"
+               "            frame_match = frame_re.match(frame_lines[pos].strip())\n"
+               "            if not frame_match:\n"
+               "                continue\n"
+               "            frame_dict = frame_match.groupdict()\n"
+               "%s"
+               "            frames.append(frame_dict)\n")
+_SEARCH = ("        for line in reversed(tb_lines):\n"
+           "            # get the bottom-most line that looks like an actual Exception\n"
+           "            # repr(), (i.e., \"Exception: message\")\n"
+           "            exc_type, sep, exc_msg = line.partition(':')\n"
+           "            if sep and exc_type and len(exc_type.split()) == 1:\n"
+           "                break\n")
+B('pkgL_b_every_line_walk_reads_the_next_line', ['C20'], 'R20.m',
+  (FL, _PAIRS, _EVERY_LINE % ('pos in range(len(frame_lines))', "            frame_dict['source_line'] = frame_lines[pos + 1].strip()\n")))
+B('pkgL_b_every_line_walk_next_line_through_a_local', ['C20'], 'R20.m',
+  (FL, _PAIRS, _EVERY_LINE % ('pos, _line in enumerate(frame_lines)',
+                              "            after = pos + 1\n            frame_dict['source_line'] = frame_lines[after].strip()\n")))
+B('pkgL_b_every_line_walk_guard_off_by_one', ['C20'], 'R20.m',
+  (FL, _PAIRS, _EVERY_LINE % ('pos in range(len(frame_lines))',
+                              "            frame_dict['source_line'] = frame_lines[pos + 1].strip() if pos + 1 <= len(frame_lines) else ''\n")))
+B('pkgL_b_every_line_walk_guard_on_the_wrong_list', ['C20'], 'R20.m',
+  (FL, _PAIRS, _EVERY_LINE % ('pos in range(len(frame_lines))',
+                              "            frame_dict['source_line'] = frame_lines[pos + 1].strip() if pos + 1 < len(tb_lines) else ''\n")))
+B('pkgL_b_pair_walk_peeks_at_the_next_frame', ['C20'], 'R20.m',
+  (FL, _SRC, _SRC + "            frame_dict['is_innermost'] = not frame_re.match(frame_lines[pair_idx + 2].strip())\n"))
+B('pkgL_b_while_walk_reads_the_next_line', ['C20'], 'R20.m',
+  (FL, _PAIRS, "        pos = 0\n        while pos < len(frame_lines):\n"
+               "            frame_match = frame_re.match(frame_lines[pos].strip())\n"
+               "            if frame_match:\n"
+               "                frames.append(dict(frame_match.groupdict(), source_line=frame_lines[pos + 1].strip()))\n"
+               "            pos += 1\n"))
+B('pkgL_b_comprehension_walk_reads_the_next_line', ['C20'], 'R20.m',
+  (FL, _PAIRS, "        frames = [dict(frame_re.match(frame_lines[pos].strip()).groupdict(), source_line=frame_lines[pos + 1].strip())\n"
+               "                  for pos in range(len(frame_lines)) if frame_re.match(frame_lines[pos].strip())]\n"))
+B('pkgL_b_exception_search_compares_with_the_line_below', ['C20'], 'R20.m',
+  (FL, _SEARCH, "        for pos in range(len(tb_lines) - 1, -1, -1):\n"
+                "            exc_type, sep, exc_msg = tb_lines[pos].partition(':')\n"
+                "            if sep and exc_type and len(exc_type.split()) == 1 and not tb_lines[pos + 1].startswith(' '):\n"
+                "                break\n"))
+B('pkgL_b_frame_walk_in_public_helper_reads_the_next_line', ['C20'], 'R20.m',
+  (FL, _PAIRS, "        frames = collect_frames(frame_lines, frame_re)\n"),
+  (FL, "def _filter_site_files(paths):\n",
+       "def collect_frames(lines, pattern):\n    found = []\n    for pos, line in enumerate(lines):\n"
+       "        m = pattern.match(line.strip())\n        if m:\n"
+       "            found.append(dict(m.groupdict(), source_line=lines[pos + 1].strip()))\n    return found\n\n\n"
+       "collect_frames_hook = collect_frames\n\n\ndef _filter_site_files(paths):\n"))
+T('pkgL_t_every_line_walk_next_line_guarded', ['C20'],
+  (FL, _PAIRS, _EVERY_LINE % ('pos in range(len(frame_lines))',
+                              "            frame_dict['source_line'] = frame_lines[pos + 1].strip() if pos + 1 < len(frame_lines) else ''\n")))
+T('pkgL_t_every_line_walk_last_position_flag', ['C20'],
+  (FL, _PAIRS, _EVERY_LINE % ('pos, _line in enumerate(frame_lines)',
+                              "            is_last = pos == len(frame_lines) - 1\n"
+                              "            if is_last:\n                frame_dict['source_line'] = ''\n"
+                              "            else:\n                frame_dict['source_line'] = frame_lines[pos + 1].strip()\n")))
+T('pkgL_t_every_line_walk_guard_clause_and_length_local', ['C20'],
+  (FL, _PAIRS, "        n_lines = len(frame_lines)\n        for pos in range(n_lines):\n"
+               "            frame_match = frame_re.match(frame_lines[pos].strip())\n"
+               "            if not frame_match:\n                continue\n"
+               "            frame_dict = frame_match.groupdict()\n"
+               "            frame_dict['source_line'] = ''\n            frames.append(frame_dict)\n"
+               "            if pos + 1 >= n_lines:\n                continue\n"
+               "            frame_dict['source_line'] = frame_lines[pos + 1].strip()\n"))
+T('pkgL_t_every_line_walk_stops_one_short', ['C20'],
+  (FL, _PAIRS, _EVERY_LINE % ('pos in range(len(frame_lines) - 1)', "            frame_dict['source_line'] = frame_lines[pos + 1].strip()\n")))
+T('pkgL_t_every_line_walk_next_line_under_handler', ['C20'],
+  (FL, _PAIRS, _EVERY_LINE % ('pos, _line in enumerate(frame_lines)',
+                              "            try:\n                frame_dict['source_line'] = frame_lines[pos + 1].strip()\n"
+                              "            except IndexError:\n                frame_dict['source_line'] = ''\n")))
+T('pkgL_t_every_line_walk_next_line_by_slice', ['C20'],
+  (FL, _PAIRS, _EVERY_LINE % ('pos, _line in enumerate(frame_lines)',
+                              "            frame_dict['source_line'] = ''.join(frame_lines[pos + 1:pos + 2]).strip()\n")))
+T('pkgL_t_while_walk_steps_by_what_it_read', ['C20'],
+  (FL, _PAIRS, "        pos = 0\n        while pos < len(frame_lines):\n"
+               "            frame_match = frame_re.match(frame_lines[pos].strip())\n"
+               "            pos += 1\n"
+               "            if not frame_match:\n                continue\n"
+               "            frame_dict = frame_match.groupdict()\n"
+               "            if pos < len(frame_lines) and not frame_re.match(frame_lines[pos].strip()):\n"
+               "                frame_dict['source_line'] = frame_lines[pos].strip()\n                pos += 1\n"
+               "            else:\n                frame_dict['source_line'] = ''\n"
+               "            frames.append(frame_dict)\n"))
+T('pkgL_t_pair_walk_by_zip', ['C20'],
+  (FL, _PAIRS, "        for frame_line, source_line in zip(frame_lines[::2], frame_lines[1::2]):\n"
+               "            frame_match = frame_re.match(frame_line.strip())\n"
+               "            if frame_match:\n"
+               "                frames.append(dict(frame_match.groupdict(), source_line=source_line.strip()))\n"))
+T('pkgL_t_pair_walk_comprehension', ['C20'],
+  (FL, _PAIRS, "        frames = [dict(frame_re.match(frame_lines[k].strip()).groupdict(), source_line=frame_lines[k + 1].strip())\n"
+               "                  for k in range(0, len(frame_lines), 2) if frame_re.match(frame_lines[k].strip())]\n"))
